@@ -496,6 +496,57 @@ func c10AutoLeave(c *Check) {
 	}
 }
 
+// c15AutoLeaveRetried — C15.L: the leave-joint proposal is attempted on every apply step for which
+// AutoLeave && newApplied >= pendingConfIndex && leader holds, under no further condition (the
+// proposal can be refused, e.g. while a transfer is pending, and must then be retried by the
+// next applied entry; otherwise the group stays joint for ever).
+func c15AutoLeaveRetried(c *Check) {
+	p := c.P
+	rAppliedTo := p.Method("raft", "raft", "appliedTo")
+	lAppliedTo := p.Method("raft", "raftLog", "appliedTo")
+	step := p.Method("raft", "raft", "Step")
+	pendingF := p.Field("raft", "raft", "pendingConfIndex")
+	autoLeaveF := p.Field("tracker", "Config", "AutoLeave")
+	stateF := p.Field("raft", "raft", "state")
+	leader := p.ConstVal("raft", "StateLeader")
+	if rAppliedTo == nil || lAppliedTo == nil || step == nil || pendingF == nil || autoLeaveF == nil {
+		return
+	}
+	afi := p.Info(rAppliedTo)
+	ar := afi.Sym(rAppliedTo.Params[0])
+	var newApplied *Sym
+	for _, ci := range p.CallsIn(rAppliedTo, lAppliedTo) {
+		newApplied = afi.Sym(callArgs(ci)[1])
+	}
+	if newApplied == nil {
+		c.Bad("C15.L", "auto-leave retried", fnName(rAppliedTo), p.Pos(rAppliedTo.Pos()), "raft.appliedTo advances raftLog's cursor", "no raftLog.appliedTo call")
+		return
+	}
+	for _, ci := range p.CallsIn(rAppliedTo, step) {
+		pf, okP := afi.PathFormulaNoAsserts(ci, -1)
+		if !okP {
+			c.Undecided("C15.L", "auto-leave retried", fnName(rAppliedTo), p.site(ci), "proposed whenever AutoLeave && newApplied >= pendingConfIndex && leader", "path formula too large")
+			continue
+		}
+		// the AutoLeave atom as the code reads it
+		var auto *BF
+		am := map[string]*BAtom{}
+		pf.atoms(am)
+		for _, a := range am {
+			if a.Src != nil && a.Src.K == KField && a.Src.Fld == autoLeaveF {
+				auto = &BF{Op: 'a', Atom: a}
+			}
+		}
+		if auto == nil {
+			c.Bad("C15.L", "auto-leave retried", fnName(rAppliedTo), p.site(ci), "proposed whenever AutoLeave && newApplied >= pendingConfIndex && leader", "AutoLeave is not tested")
+			continue
+		}
+		spec := bfAnd(auto, bfCmp(newApplied, ">=", FieldOf(ar, pendingF)), bfCmp(FieldOf(ar, stateF), "==", constSym(leader)))
+		ok, why := bfImplies(spec, pf)
+		c.Result(ok, "C15.L", "auto-leave retried", fnName(rAppliedTo), p.site(ci), "proposed on every apply step with AutoLeave && newApplied >= pendingConfIndex && state == StateLeader (no further condition)", shorten(why, 300))
+	}
+}
+
 // calledOnlyFrom: fn is one of the allowed functions, or a helper all of whose call sites sit
 // (through at most three levels of helpers) in allowed functions.
 func calledOnlyFrom(p *Prog, fn *ssa.Function, allowed map[*ssa.Function]bool, depth int) bool {
